@@ -7,6 +7,7 @@ from propbase import executions, decode_schedule
 def parse_program(prog_lines):
     """returns dict(bodies={k:[ops]}, steps=('none'|'fail'|'cont', n), run=str, objs={name:kind})"""
     bodies, cur, steps, run, objs = {}, None, ("none", 0), "", {}
+    futures = set()
     for l in prog_lines:
         t = l.split("#")[0].split()
         if not t:
@@ -19,6 +20,8 @@ def parse_program(prog_lines):
             continue
         if t[0] == "task":
             cur = int(t[1]); bodies[cur] = []
+            if len(t) > 2 and t[2] == "future":
+                futures.add(cur)
         elif t[0] == "config":
             for kv in t[1:]:
                 if kv.startswith("steps="):
@@ -31,12 +34,15 @@ def parse_program(prog_lines):
             objs[t[1]] = t[2]
         elif t[0] == "run":
             run = t[1]
-    return {"bodies": bodies, "steps": steps, "run": run, "objs": objs}
+    return {"bodies": bodies, "steps": steps, "run": run, "objs": objs, "futures": futures}
 
 
 def op_name(P, k, pc):
     try:
-        return P["bodies"][int(k)][int(pc)][0]
+        t = P["bodies"][int(k)][int(pc)]
+        while t[0] == "block_on" and len(t) > 1:      # `block_on <async op>`: the op that is run
+            t = t[1:]
+        return t[0]
     except Exception:
         return "?"
 
@@ -168,6 +174,7 @@ def o_verdict(prog, lines):
     bad = []
     for e in executions(lines):
         created, ended = {0}, set()
+        thread_tids = {0}           # tasks seen running a thread body (futures may be detached: see oracle_c17)
         decisions = 0
         last_none = False
         for l in e["lines"]:
@@ -181,7 +188,9 @@ def o_verdict(prog, lines):
             elif l.startswith("O "):
                 t = l.split()
                 created.add(int(t[1]))
-                if len(t) == 4 and t[3] == "end":
+                if t[2].isdigit() and int(t[2]) not in P["futures"]:
+                    thread_tids.add(int(t[1]))
+                if len(t) == 4 and t[3] in ("end", "dropped"):      # a cancelled future is finished too
                     ended.add(int(t[1]))
         end = e["end"] or ""
         if end.startswith("E fail deadlock! blocked tasks: ["):
@@ -195,6 +204,7 @@ def o_verdict(prog, lines):
             kind, n = P["steps"]
             if kind == "cont" or last_none:
                 continue
-            if created - ended:
-                bad.append((f"execution ended normally although tasks {sorted(created - ended)} never finished", "C03:early-end"))
+            left = (created - ended) if not P["futures"] else ((created - ended) & thread_tids)
+            if left:
+                bad.append((f"execution ended normally although tasks {sorted(left)} never finished", "C03:early-end"))
     return bad
